@@ -49,8 +49,34 @@ class SimFS:
             raise PermissionError(13, 'Permission denied', path)
         self.dirs.add(path)
 
+    def remove(self, path):
+        self.log.append(('remove', path))
+        if path.startswith(self.ro_root + '/'):
+            self.ro_mutations.append(('remove', path))
+            raise PermissionError(13, 'Permission denied', path)
+        if path not in self.files:
+            raise FileNotFoundError(2, 'No such file or directory', path)
+        del self.files[path]
+        self.dirty.pop(path, None)
+
+    def rename(self, src, dst):
+        self.log.append(('rename', src, dst))
+        for p in (src, dst):
+            if p.startswith(self.ro_root + '/'):
+                self.ro_mutations.append(('rename', src, dst))
+                raise PermissionError(13, 'Permission denied', p)
+        self.files[dst] = self.files.pop(src)
+        if src in self.dirty:
+            self.dirty[dst] = self.dirty.pop(src)
+
     def os_proxy(self):
-        return types.SimpleNamespace(path=types.SimpleNamespace(exists=self.exists), makedirs=self.makedirs)
+        import os as _os
+        return types.SimpleNamespace(
+            path=types.SimpleNamespace(exists=self.exists, join=_os.path.join, basename=_os.path.basename,
+                                       dirname=_os.path.dirname, isfile=lambda p: p in self.files,
+                                       isdir=lambda p: p in self.dirs),
+            makedirs=self.makedirs, remove=self.remove, unlink=self.remove, rename=self.rename, replace=self.rename,
+            sep='/', error=OSError)
 
     def install(self):
         import cflib.crazyflie.toccache as tc
